@@ -8,5 +8,5 @@ sed -i "$1" $D/src/finam/$2
 if diff -rq /repo/src/finam/$2 $D/src/finam/$2 >/dev/null; then echo "NO CHANGE"; rm -rf $D; exit 3; fi
 shift 2
 cd /verif
-for c in "$@"; do FINAM_SRC=$D/src ./check $c quick 2>&1 | grep -E "VIOLATION|^C[0-9]+ quick|MACHINERY|Error" | head -3; done
+for c in "$@"; do FINAM_SRC=$D/src ./check $c quick 2>&1 | grep -v KNOWN-FINDING | grep -E "VIOLATION|^C[0-9]+ quick|MACHINERY|Error" | head -3; done
 rm -rf $D
